@@ -85,6 +85,29 @@ def check(sp, at, side, edit, target):
         return o
     if objs(orig_all) & objs(cn):
         raise Violation("copy-shares-mutable-object", "a node / dict / list object is shared between copy and original", case)
+    # a second copy of the same node and a copy of the copy: ids stay fresh, values equal, nothing shared
+    try:
+        c2 = sub.copy()
+        c3 = c.copy()
+    except Exception as e:  # noqa
+        raise Violation("copy-raises:" + type(e).__name__, "second copy / copy of a copy: " + repr(e)[:200], case)
+    seen = set(orig_ids) | set(ids)
+    for label, other in (("second copy", c2), ("copy of the copy", c3)):
+        on = treegen.nodes(other)
+        oi = [n.id for n in on]
+        if len(set(oi)) != len(oi) or set(oi) & seen:
+            raise Violation("copy-ids-not-fresh", f"{label}: ids collide with earlier nodes", case)
+        seen |= set(oi)
+        if snapshot.snap(other) != snapshot.snap(sub):
+            raise Violation("copy-not-equal", f"{label} differs from the original subtree", case)
+        if objs(on) & (objs(orig_all) | objs(cn)):
+            raise Violation("copy-shares-mutable-object", f"{label} shares an object with an earlier tree", case)
+        for n in on:
+            if Node.get_node_instance(n.id) is not n:
+                raise Violation("copy-node-not-registered", f"{label}: {n.name!r} not registered under its id", case)
+    for n in cn + orig_all:
+        if Node.get_node_instance(n.id) is not n:
+            raise Violation("copy-disturbs-registry", "an earlier node lost its registry entry after further copies", case)
     # one edit on one side
     tl = cn if side else orig_all
     tgt = tl[target % len(tl)]
